@@ -51,13 +51,17 @@ def parseVal (t : String) : Option Val :=
     | some h => (unhex h).map .str
     | none => match dropPrefix? t "A:" with
       | some h => (unhexList h).map .arr
-      | none => none
+      | none =>
+        if t == "B:1" then some (.bool true) else if t == "B:0" then some (.bool false)
+        else match dropPrefix? t "N:" with
+          | some d => d.toInt?.map .num
+          | none => none
 
-def valToRaw : Val → Raw
-  | .empty => .empty | .str b => .str b | .arr l => .arr l
+def valToRaw : Val → Raw := Raw.ofVal
 
 def showVal : Val → String
   | .empty => "E" | .str b => "S:" ++ hexOf b | .arr l => "A:" ++ hexList l
+  | .bool x => if x then "B:1" else "B:0" | .num n => "N:" ++ toString n
 
 def showCmdOut : CmdOut → String
   | .sh b => "sh:" ++ hexOf b | .argv l => "argv:" ++ hexList l
@@ -134,6 +138,11 @@ structure DSt where
   svc : Obj := { rname := b "service", vars := [], attrs := [] }
   host : Obj := { rname := b "host", vars := [], attrs := [] }
   cmd : Obj := { rname := b "command", vars := [], attrs := [] }
+  env : List (String × Bytes) := []
+  envChecked : Nat := 0
+  envThrew : Nat := 0
+  signals : Nat := 0
+  typedVals : Nat := 0
   caseNo : Nat := 0
   steps : Nat := 0
   nM : Nat := 0
@@ -417,21 +426,50 @@ structure RunObs where
   perf : List Bytes
   gone : String
   suffix : Bytes
+  env : Option (List (String × Bytes))    -- `none`: ScriptFunc threw
+
+def parseEnvObs (t : String) : Option (Option (List (String × Bytes))) :=
+  if t == "!" then some none
+  else if t == "~" then some (some [])
+  else ((t.splitOn "+").mapM fun (e : String) =>
+    match e.splitOn "=" with
+    | [k, vh] => (unhex vh).map (fun v => (k, v))
+    | _ => none).map some
 
 def parseRunObs (post : List String) : Option RunObs :=
   match post with
-  | [ran, argvh, rech, st, oex, oouth, perfh, gone, sfx] =>
-    match parseBool? ran, unhexList argvh, parseCmdOut rech, st.toNat?, oex.toInt?, unhex oouth, unhexList perfh, unhex sfx with
-    | some ran, some argv, some recorded, some ostate, some oexit, some oout, some operf, some sfx =>
-      some { ran := ran, argv := argv, recorded := recorded, state := ostate, exit := oexit, out := oout, perf := operf, gone := gone, suffix := sfx }
-    | _, _, _, _, _, _, _, _ => none
+  | [ran, argvh, rech, st, oex, oouth, perfh, gone, sfx, envt] =>
+    match parseBool? ran, unhexList argvh, parseCmdOut rech, st.toNat?, oex.toInt?, unhex oouth, unhexList perfh, unhex sfx, parseEnvObs envt with
+    | some ran, some argv, some recorded, some ostate, some oexit, some oout, some operf, some sfx, some env =>
+      some { ran := ran, argv := argv, recorded := recorded, state := ostate, exit := oexit, out := oout, perf := operf, gone := gone, suffix := sfx, env := env }
+    | _, _, _, _, _, _, _, _, _ => none
   | _ => none
+
+/-- The text an `env` entry denotes under `look` (model: `envValue`); `none`: the resolution fails. -/
+def envText (look : Bytes → Lookup) (raw : Bytes) : Option (Bytes × Bool) :=
+  match envValue look raw with
+  | .ok r => some r
+  | .error _ => none
+
+def envUnsupported (look : Bytes → Lookup) (raw : Bytes) : Bool :=
+  match envValue look raw with
+  | .error .unsupported => true
+  | _ => false
 
 /-- One end-to-end run: specification clauses on the observations, then model against implementation. -/
 def checkRun (d : DSt) (n : Nat) (op : String) (look : Bytes → Lookup) (cmd : Cmd) (args : Option (List ArgSpec))
-    (exit : Int) (out : Bytes) (tmo slp : Nat) (o : RunObs) : IO DSt := do
+    (exit : Int) (out : Bytes) (tmo slp : Nat) (o : RunObs) (term : String := "-") : IO DSt := do
   let mut d := d
+  /- an `env` entry whose resolution fails: the exception leaves ExecuteCommand; the model must predict exactly that -/
+  let envFails := d.env.any (fun e => (envText look e.2).isNone && !envUnsupported look e.2)
+  let envUnsup := d.env.any (fun e => envUnsupported look e.2)
+  if o.env.isNone then
+    d := { d with envThrew := d.envThrew + 1 }
+    let argsUnsup := match resolveArguments look 0 cmd args with | .error .unsupported => true | _ => false
+    if !envFails && !envUnsup && !argsUnsup then d ← mismatch d n op "env-exception" "threw" "resolves"
+    return d
   let ran := o.ran
+  let raised := term.startsWith "r"
   let argv := o.argv
   let recorded := o.recorded
   let timedOut := tmo > 0 && slp > tmo * 10
@@ -443,9 +481,23 @@ def checkRun (d : DSt) (n : Nat) (op : String) (look : Bytes → Lookup) (cmd : 
     match specTimeout o.state (o.gone == "1") with | some c => fails := fails ++ [c] | none => pure ()
   else if recorded.isNone then
     match specFailed ran o.state o.exit with | some c => fails := fails ++ [c] | none => pure ()
+  else if ran && raised then
+    d := { d with signals := d.signals + 1 }
+    match specSignal o.state with | some c => fails := fails ++ [c] | none => pure ()
   else if ran then
     match specExit exit o.state o.exit with | some c => fails := fails ++ [c] | none => pure ()
     match specOutput o.suffix exit out o.out o.perf with | some c => fails := fails ++ [c] | none => pure ()
+  /- environment: every C09E_ entry carries its text verbatim -/
+  if ran && recorded.isSome then
+    for (k, raw) in d.env do
+      let seen := (o.env.getD []).lookup k
+      match envText look raw with
+      | some (t, miss) =>
+        d := { d with envChecked := d.envChecked + 1 }
+        match specEnv (if miss then none else some t) seen with | some c => fails := fails ++ [c] | none => pure ()
+        if seen ≠ some t then d ← mismatch d n op "env" s!"{k}={(seen.map hexOf).getD "absent"}" (hexOf t)
+      | none =>
+        if !envUnsupported look raw then d ← mismatch d n op "env" s!"{k}={(seen.map hexOf).getD "absent"}" "error"
   match recorded with
   | some r =>
     if ran then
@@ -484,7 +536,10 @@ def checkRun (d : DSt) (n : Nat) (op : String) (look : Bytes → Lookup) (cmd : 
     return d
   | .ok co =>
     match recorded with
-    | none => mismatch d n op "command" "none" (showCmdOut co)
+    | none =>
+      -- an `env` entry that cannot be resolved: reported as a failed check instead of an exception — equally a failure
+      if (envFails || envUnsup) && !ran && o.state == 3 then return d
+      mismatch d n op "command" "none" (showCmdOut co)
     | some r =>
       let (ok, perm) := cmdAgrees look cmd args co r
       if perm && ok then d := { d with tiePerm := d.tiePerm + 1 }
@@ -501,7 +556,14 @@ def checkRun (d : DSt) (n : Nat) (op : String) (look : Bytes → Lookup) (cmd : 
         match shWords sline with
         | .ok ws => if !ran || argv ≠ ws then d ← mismatch d n op "sh-argv" s!"{ran},{hexList argv}" (hexList ws)
         | .error _ => d := { d with shOutside := d.shOutside + 1 }
-      if ran && !timedOut then
+      if ran && (timedOut || raised) then
+        -- how the process ended: the deadline passed (SIGTERM sent) or it died by a signal; whatever `waitpid` reports
+        -- the model's exit status is 128, hence UNKNOWN (the exit NUMBER is not compared, only the state)
+        let e : Ending := { deadlinePassed := timedOut, couldNotKill := false,
+                            wait := if raised then .signaled ((term.drop 1).toString.toNat?.getD 0) else .exited exit.toNat }
+        let ms := exitToState e.exit
+        if ms != o.state then d ← mismatch d n op "kill-state" s!"{o.state}" s!"{ms}"
+      if ran && !timedOut && !raised then
         let mo := processFinished o.suffix exit out
         if mo.state != o.state || mo.exit != o.exit || mo.output != o.out || mo.perfdata != o.perf then
           d ← mismatch d n op "result" s!"{o.state},{o.exit},{hexOf o.out},{hexList o.perf}"
@@ -517,7 +579,7 @@ def handleX (d : DSt) (n : Nat) (line : String) (pre post : List String) : IO DS
       match ex.toInt?, unhex outh, tmo.toNat?, slp.toNat?, parseRunObs post with
       | some exit, some out, some tmo, some slp, some o =>
         let d := noteNontrivial { d with steps := d.steps + 1, nX := d.nX + 1 } line
-        checkRun d n "X" (d.look svc) cmd args exit out tmo slp o
+        checkRun d n "X" (d.look svc) cmd args exit out tmo slp o (term.headD "-")
       | _, _, _, _, _ => IO.println s!"BADLINE line={n}"; return d
     | _, _ => IO.println s!"BADLINE line={n}"; return d
   | _ => IO.println s!"BADLINE line={n}"; return d
@@ -525,7 +587,7 @@ def handleX (d : DSt) (n : Nat) (line : String) (pre post : List String) : IO DS
 def handleY (d : DSt) (n : Nat) (line : String) (pre post : List String) : IO DSt := do
   match pre, post with
   | svc :: rest, ch :: fillRan :: obs =>
-    match parseBool? svc, parseCmdArgs d.plugin rest, parseCache ch, parseBool? fillRan, parseRunObs (obs.take 9), parseRunObs (obs.drop 9) with
+    match parseBool? svc, parseCmdArgs d.plugin rest, parseCache ch, parseBool? fillRan, parseRunObs (obs.take 10), parseRunObs (obs.drop 10) with
     | some svc, some (cmd, args, [ex, outh]), some cache, some fillRan, some o1, some o2 =>
       match ex.toInt?, unhex outh with
       | some exit, some out =>
@@ -533,7 +595,7 @@ def handleY (d : DSt) (n : Nat) (line : String) (pre post : List String) : IO DS
         let mut d := noteNontrivial { d with steps := d.steps + 1, nY := d.nY + 1, cachedChecked := d.cachedChecked + 1 } line
         -- specification on the implementation's observations
         if fillRan then d ← specfail d n .fillNotRun
-        let same := o1.recorded.isNone || (o1.ran == o2.ran && o1.argv == o2.argv && o1.state == o2.state && o1.out == o2.out)
+        let same := o1.recorded.isNone || (o1.ran == o2.ran && o1.argv == o2.argv && o1.state == o2.state && o1.out == o2.out && o1.env == o2.env)
         if !same && !modelUnsupported look cache cmd args then
           let r1 : Except String (String × String) := match o1.recorded with | some c => .ok (showCmdOut c, "") | none => .error "required"
           let r2 : Except String (String × String) := match o2.recorded with | some c => .ok (showCmdOut c, "") | none => .error "required"
@@ -576,12 +638,17 @@ def handle (d : DSt) (n : Nat) (line : String) : IO DSt := do
       | some p => return { d with plugin := p, caseNo := d.caseNo + 1,
                                   svc := { d.svc with vars := [], attrs := svcAttrs0 },
                                   host := { d.host with vars := [], attrs := hostAttrs0 },
-                                  cmd := { d.cmd with vars := [] } }
+                                  cmd := { d.cmd with vars := [] }, env := [] }
       | none => IO.println s!"BADLINE line={n}"; return d
     | _ => IO.println s!"BADLINE line={n}"; return d
+  | ["N", idx, vh] =>
+    match unhex vh with
+    | some v => return { d with env := (idx, v) :: d.env.filter (fun e => e.1 != idx) }
+    | none => IO.println s!"BADLINE line={n}"; return d
   | ["V", lvl, nh, vt] =>
     match unhex nh, parseVal vt with
     | some nm, some v =>
+      let d := match v with | .bool _ | .num _ => { d with typedVals := d.typedVals + 1 } | _ => d
       if lvl == "s" then return { d with svc := { d.svc with vars := setAssoc d.svc.vars nm v } }
       else if lvl == "h" then return { d with host := { d.host with vars := setAssoc d.host.vars nm v } }
       else if lvl == "c" then return { d with cmd := { d.cmd with vars := setAssoc d.cmd.vars nm v } }
@@ -643,4 +710,4 @@ def handle (d : DSt) (n : Nat) (line : String) : IO DSt := do
 def main : IO Unit := do
   let stdin ← IO.getStdin
   let d ← foldLines stdin handle ({} : DSt)
-  IO.println s!"STATS cases={d.caseNo} steps={d.steps} macro_strings={d.nM} resolutions={d.nG} spawns={d.nX} cached_macro_strings={d.nH} cached_resolutions={d.nK} cached_spawns={d.nY} cached_checked={d.cachedChecked} cached_diverged={d.cachedDiverged} crashes={d.crashes} layout_checked={d.layoutChecked} sep_joined={d.sepJoined} outputs={d.nP} exits={d.nE} sh_lines={d.nW} err_recursion={d.errRec} err_unclosed={d.errUnclosed} err_mixing={d.errMixing} err_required={d.errRequired} unsupported={d.unsupported} missing={d.missing} arrays={d.arrays} sh_checked={d.shLines} sh_outside={d.shOutside} tie_permutations={d.tiePerm} ran={d.spawned} not_run={d.notRun} timeouts={d.timeouts} dq_cases={d.dqCases} dq_interpreted={d.dqInterpreted} verbatim_checked={d.verbatimChecked} nontrivial={d.nontrivial} mismatches={d.mismatches} specfails={d.specfails}"
+  IO.println s!"STATS cases={d.caseNo} steps={d.steps} macro_strings={d.nM} resolutions={d.nG} spawns={d.nX} cached_macro_strings={d.nH} cached_resolutions={d.nK} cached_spawns={d.nY} cached_checked={d.cachedChecked} cached_diverged={d.cachedDiverged} crashes={d.crashes} layout_checked={d.layoutChecked} sep_joined={d.sepJoined} outputs={d.nP} exits={d.nE} sh_lines={d.nW} err_recursion={d.errRec} err_unclosed={d.errUnclosed} err_mixing={d.errMixing} err_required={d.errRequired} unsupported={d.unsupported} missing={d.missing} arrays={d.arrays} sh_checked={d.shLines} sh_outside={d.shOutside} tie_permutations={d.tiePerm} ran={d.spawned} not_run={d.notRun} timeouts={d.timeouts} dq_cases={d.dqCases} dq_interpreted={d.dqInterpreted} verbatim_checked={d.verbatimChecked} env_checked={d.envChecked} env_threw={d.envThrew} signal_deaths={d.signals} typed_values={d.typedVals} nontrivial={d.nontrivial} mismatches={d.mismatches} specfails={d.specfails}"
